@@ -15,7 +15,7 @@ pub const THR: [f64; 7] = [0.0, 0.05, 0.3, 0.5, 0.7, 0.95, 1.0];
 
 pub fn run(tier: Tier) -> i32 {
     let rep = Report::new("C11", tier, "model_checking");
-    rep.set_rule("SCOPE: F0-stream thresholds {0,.05,.3,.5,.7,.95,1} x (default + every single deviation of the other streams' thresholds {0,1} and of every stream's GV weight {0,2}, and a pitch shift alone or with another stream's threshold) x voices (V0, P1..P3, generated with voicing weights straddling the lattice) x utterances; trajectories via hook 1; oracle: frame voiced iff msd(state(frame)) > threshold[1] with msd from Models::model_stream(1), voiced sets nested along the thresholds, spectrum/low-pass trajectories bit-identical across F0-threshold and F0-GV-weight values, F0 trajectory bit-identical across other streams' settings, unvoiced frames rendered as the reference noise and voiced frames as pulse trains on zero-spectrum voices (one of them with log-F0 leaves at 15 Hz); distinct = (voice, utterance, other deviation, threshold); non-trivial = utterance has both voiced and unvoiced states at some threshold");
+    rep.set_rule("SCOPE: F0-stream thresholds {0,.05,.3,.5,.7,.95,1} and up to three thresholds exactly equal to voicing weights of the utterance x (default + every single deviation of the other streams' thresholds {0,1} and of every stream's GV weight {0,2}, and a pitch shift alone or with another stream's threshold) x voices (V0, P1..P3, generated with voicing weights straddling the lattice) x utterances; trajectories via hook 1; oracle: frame voiced iff msd(state(frame)) > threshold[1] with msd from Models::model_stream(1), voiced sets nested along the thresholds, spectrum/low-pass trajectories bit-identical across F0-threshold and F0-GV-weight values, F0 trajectory bit-identical across other streams' settings, unvoiced frames rendered as the reference noise and voiced frames as pulse trains on zero-spectrum voices (one of them with log-F0 leaves at 15 Hz); distinct = (voice, utterance, other deviation, threshold); non-trivial = utterance has both voiced and unvoiced states at some threshold");
     rep.assume("threshold lattice only; state(frame) derived from DurationEstimator::create through the public API");
     let corpus = labels::corpus();
     let mut utts: Vec<Vec<String>> = vec![vec![corpus[41].clone()], corpus[40..43].to_vec(), corpus[0..3].to_vec()];
@@ -87,7 +87,22 @@ pub fn run(tier: Tier) -> i32 {
         let mut first: Option<Traj> = None;
         let mut any_v = false;
         let mut any_u = false;
-        for &th in &THR {
+        // the lattice plus thresholds exactly equal to voicing weights that occur in this utterance ("exceeds" is strict:
+        // at equality the frame is unvoiced)
+        let mut ths: Vec<f64> = THR.to_vec();
+        {
+            let mut m: Vec<f64> = msd.iter().cloned().filter(|x| *x > 0.0 && *x < 1.0).collect();
+            m.sort_by(|a, b| a.partial_cmp(b).unwrap());
+            m.dedup();
+            for k in [0, m.len() / 2, m.len().saturating_sub(1)] {
+                if let Some(x) = m.get(k) {
+                    ths.push(*x);
+                }
+            }
+            ths.sort_by(|a, b| a.partial_cmp(b).unwrap());
+            ths.dedup();
+        }
+        for &th in &ths {
             let mut e = eb.clone();
             e.condition.set_msd_threshold(1, th);
             rep.eval(1);
